@@ -143,4 +143,112 @@ example : missingVariants ["Some", "None"] true [.ctor "Some"] = ["None"] := by 
 example : missingVariants ["Red", "Green", "Blue"] false [.ctor "Red", .ctor "Green"] = ["Blue"] := by decide
 example : missingVariants ["Ok", "Err"] false [.ctor "Ok", .binding] = [] := by decide
 
+/-! ### Call arguments -/
+
+theorem positionals_all (args : List CArg) (h : ∀ a ∈ args, a.name = none) (i k : Nat) :
+    (positionals args i)[k]? = (args[k]?).map fun a => (i + k, a.ty) := by
+  induction args generalizing i k with
+  | nil => simp [positionals]
+  | cons a rest ih =>
+    have ha : a.name = none := h a (by simp)
+    have hr : ∀ b ∈ rest, b.name = none := fun b hb => h b (by simp [hb])
+    simp only [positionals, ha]
+    cases k with
+    | zero => simp
+    | succ k =>
+      simp only [List.getElem?_cons_succ, ih hr (i + 1) k]
+      cases rest[k]? with
+      | none => rfl
+      | some b => simp; omega
+
+theorem findNamed_none (n : String) (args : List CArg) (h : ∀ a ∈ args, a.name = none) (i : Nat) :
+    findNamed n args i = none := by
+  induction args generalizing i with
+  | nil => rfl
+  | cons a rest ih =>
+    have ha : a.name = none := h a (by simp)
+    simp [findNamed, ih (fun b hb => h b (by simp [hb])), ha]
+
+/-- Generalised over the position counter. -/
+theorem validate_positional_aux (ok : String → String → Bool) (args : List CArg) (h : ∀ a ∈ args, a.name = none)
+    (ps : List (String × String)) (k m : Nat) (hm : m < ps.length) (hj : k + m < args.length)
+    (hbad : ok (args[k + m]).ty (ps[m]).2 = false) : k + m ∈ validateArgs ok args ps k := by
+  induction ps generalizing k m with
+  | nil => simp at hm
+  | cons p ps ih =>
+    obtain ⟨pn, pt⟩ := p
+    have hk : k < args.length := by omega
+    have hpos : (positionals args 0)[k]? = some (k, (args[k]).ty) := by
+      rw [positionals_all args h 0 k]; simp [hk]
+    simp only [validateArgs, findNamed_none pn args h 0, hpos]
+    cases m with
+    | zero =>
+      simp at hbad
+      simp [hbad]
+    | succ m =>
+      apply List.mem_append_right
+      have := ih (k + 1) m (by simpa using hm) (by omega) (by
+        have e : k + 1 + m = k + (m + 1) := by omega
+        simpa [e] using hbad)
+      have e : k + 1 + m = k + (m + 1) := by omega
+      rwa [e] at this
+
+/-- MAIN (arguments): in a call with positional arguments, every argument whose type the parameter at the same
+position does not accept is reported — whatever the other parameters are (a trait-typed parameter earlier in the
+list does not end the check). -/
+theorem wrong_argument_reported (ok : String → String → Bool) (args : List CArg) (ps : List (String × String))
+    (h : ∀ a ∈ args, a.name = none) (j : Nat) (hp : j < ps.length) (ha : j < args.length)
+    (hbad : ok (args[j]).ty (ps[j]).2 = false) : j ∈ validateArgs ok args ps 0 := by
+  have := validate_positional_aux ok args h ps 0 j hp (by simpa using ha) (by simpa using hbad)
+  simpa using this
+
+/-- A keyword argument of the wrong type is reported wherever its parameter stands. -/
+theorem wrong_named_argument_reported (ok : String → String → Bool) (args : List CArg) (ps : List (String × String))
+    (pn pt : String) (hmem : (pn, pt) ∈ ps) (i : Nat) (aty : String) (hf : findNamed pn args 0 = some (i, aty))
+    (hbad : ok aty pt = false) (k : Nat) : i ∈ validateArgs ok args ps k := by
+  induction ps generalizing k with
+  | nil => simp at hmem
+  | cons p ps ih =>
+    obtain ⟨qn, qt⟩ := p
+    rcases List.mem_cons.1 hmem with heq | hrest
+    · cases heq
+      simp [validateArgs, hf, hbad]
+    · unfold validateArgs
+      split
+      · exact List.mem_append_right _ (ih hrest k)
+      · split
+        · exact List.mem_append_right _ (ih hrest (k + 1))
+        · exact ih hrest k
+
+/-- Nothing is reported on a call whose arguments all fit (no false alarm), positional case. -/
+theorem fitting_arguments_accepted (ok : String → String → Bool) (args : List CArg) (ps : List (String × String))
+    (h : ∀ a ∈ args, a.name = none) (k : Nat)
+    (hok : ∀ m, (hm : m < ps.length) → (hj : k + m < args.length) → ok (args[k + m]).ty (ps[m]).2 = true) :
+    validateArgs ok args ps k = [] := by
+  induction ps generalizing k with
+  | nil => rfl
+  | cons p ps ih =>
+    obtain ⟨pn, pt⟩ := p
+    simp only [validateArgs, findNamed_none pn args h 0]
+    rw [positionals_all args h 0 k]
+    by_cases hk : k < args.length
+    · have h0 := hok 0 (by simp) (by simpa using hk)
+      simp at h0
+      simp only [List.getElem?_eq_getElem hk, Option.map_some, Nat.zero_add, h0, if_true, List.nil_append]
+      apply ih
+      intro m hm hj
+      have := hok (m + 1) (by simpa using hm) (by omega)
+      have e : k + (m + 1) = k + 1 + m := by omega
+      simpa [e] using this
+    · simp only [List.getElem?_eq_none (Nat.le_of_not_lt hk), Option.map_none]
+      apply ih
+      intro m hm hj
+      omega
+
+-- the shape that was lost when the loop left at the first trait-typed parameter
+example : validateArgs (fun a e => a == e || (e == "Named" && a == "Dog"))
+    [⟨none, "Dog"⟩, ⟨none, "str"⟩] [("who", "Named"), ("times", "int")] 0 = [1] := by decide
+example : validateArgs (fun a e => a == e) [⟨none, "int"⟩, ⟨some "b", "str"⟩, ⟨some "b", "int"⟩]
+    [("a", "int"), ("b", "int")] 0 = [] := by decide
+
 end Incan.Checker
